@@ -152,7 +152,7 @@ func drawC09(t *rapid.T) C09Case {
 		MultiLineDesc: true,
 		WideDates:     true,
 	}
-	gen.MaybeLarge(t, &cfg, 40)
+	gen.MaybeLarge(t, &cfg, 4)
 	j := gen.GenJournal(t, cfg)
 	// several prices for one pair on one day (either direction): within one file the last one counts, and
 	// printing must not change which one that is
